@@ -57,6 +57,7 @@ func ruleEncoders(c *Ctx) {
 			name, pos := funcName(fn), c.P.pos(fn.Pos())
 			n := 0
 			lvl, fin, whole := []string{}, []string{}, []string{}
+			seenDest := map[string]bool{}
 			sim := c.P.Simulate(fn, SimConfig{}, func(pr *PathResult) {
 				n++
 				where := "path [" + condString(pr.Conds) + "]"
@@ -79,6 +80,10 @@ func ruleEncoders(c *Ctx) {
 				}
 				if ctorAt < 0 || W == nil {
 					return
+				}
+				if buf != nil && buf.Type != nil && !strings.HasSuffix(buf.Type.String(), "bytes.Buffer") && !seenDest[buf.Type.String()] {
+					seenDest[buf.Type.String()] = true
+					whole = append(whole, fmt.Sprintf("the compressing writer writes into a %s, not a growing bytes.Buffer: a destination that can run full reports it through the writer's Close, whose error the encoder discards, so a short stream is returned as a success", buf.Type.String()))
 				}
 				if pr.Exit != "return" {
 					return
